@@ -70,6 +70,25 @@ class Recorder:
                 return None
         out, exc, extra = "ok", "", {}
         O = self.objs
+        # ---- prepare: concretise the arguments (harness code: errors here are machinery errors)
+        arg = {}
+        if kind in ("Fill", "FillNoW", "Increment"):
+            arg["x"] = B.datum(op["x"], self.g)
+            if kind == "Fill":
+                arg["w"] = to_float(op["w"])
+        elif kind == "FillNumpy":
+            arg["data"] = B.batch(op["rows"], self.g)
+            arg["before"] = arg["data"].tobytes()
+            if op["wf"] == "scalar":
+                arg["w"] = to_float(op["wsc"])
+            elif op["wf"] == "array":
+                arg["w"] = np.array([to_float(x) for x in op["ws"]], dtype=np.float64)
+                arg["wb"] = arg["w"].tobytes()
+        elif kind == "Mul":
+            arg["f"] = self.factor(op)
+        elif kind in ("New", "NewShared", "NewDefault"):
+            pass  # constructors are library code: built inside the try block
+        # ---- execute: only calls into the library
         try:
             if kind == "New":
                 O[op["s"]] = B.build(op["d"], self.g)
@@ -78,27 +97,17 @@ class Recorder:
             elif kind == "NewDefault":
                 O[op["s"]] = B.build_default(op["d"], self.g)
             elif kind == "Fill":
-                O[op["s"]].fill(B.datum(op["x"], self.g), to_float(op["w"]))
+                O[op["s"]].fill(arg["x"], arg["w"])
             elif kind == "FillNoW":
-                O[op["s"]].fill(B.datum(op["x"], self.g))
+                O[op["s"]].fill(arg["x"])
             elif kind == "Increment":
-                r = hg.defs.increment(O[op["s"]], B.datum(op["x"], self.g))
+                r = hg.defs.increment(O[op["s"]], arg["x"])
                 extra["same"] = r is O[op["s"]]
             elif kind == "FillNumpy":
-                data = B.batch(op["rows"], self.g)
-                before = data.tobytes()
-                wf = op["wf"]
-                if wf == "one":
-                    O[op["s"]].fill.numpy(data)
-                    extra["inputs_unchanged"] = data.tobytes() == before
-                elif wf == "scalar":
-                    O[op["s"]].fill.numpy(data, to_float(op["wsc"]))
-                    extra["inputs_unchanged"] = data.tobytes() == before
+                if op["wf"] == "one":
+                    O[op["s"]].fill.numpy(arg["data"])
                 else:
-                    w = np.array([to_float(x) for x in op["ws"]], dtype=np.float64)
-                    wb = w.tobytes()
-                    O[op["s"]].fill.numpy(data, w)
-                    extra["inputs_unchanged"] = data.tobytes() == before and w.tobytes() == wb
+                    O[op["s"]].fill.numpy(arg["data"], arg["w"])
             elif kind == "Add":
                 O[op["t"]] = O[op["a"]] + O[op["b"]]
             elif kind == "Combine":
@@ -108,7 +117,7 @@ class Recorder:
                 a += O[op["b"]]
                 O[op["a"]] = a
             elif kind == "Mul":
-                O[op["t"]] = (O[op["a"]] * self.factor(op)) if op.get("side", "l") == "l" else (self.factor(op) * O[op["a"]])
+                O[op["t"]] = (O[op["a"]] * arg["f"]) if op.get("side", "l") == "l" else (arg["f"] * O[op["a"]])
             elif kind == "Zero":
                 O[op["t"]] = O[op["a"]].zero()
             elif kind == "Copy":
@@ -168,18 +177,22 @@ class Recorder:
                     list(h.children)
                     h.name, h.factory, h.entries
                 elif which == "ndim":
-                    h.n_dim, h.datatype
+                    if hasattr(type(h), "n_dim"):  # collections do not offer n_dim / datatype
+                        h.n_dim, h.datatype
             elif kind == "Drop":
                 del O[op["s"]]
             else:
-                raise ValueError("unknown op " + kind)
-        except BudgetExceeded:
+                raise NotImplementedError("unknown op " + kind)
+        except NotImplementedError:
             raise
         except Exception as e:  # the outcome is part of the observation
-            if isinstance(e, ValueError) and str(e).startswith("unknown op"):
-                raise
             out, exc = "exc", type(e).__name__
             extra["msg"] = str(e)[:120]
+        if kind == "FillNumpy":
+            extra["inputs_unchanged"] = arg["data"].tobytes() == arg["before"] and (
+                "wb" not in arg or arg["w"].tobytes() == arg["wb"])
+        if kind == "Eq" and "res" not in extra:
+            extra["res"] = {"ab": False, "ba": False, "ne": True, "tab": False, "tba": False}
         ch, dropped = self.observe()
         if any(max_mag(c["v"]["c"]) > self.budget for c in ch):
             raise BudgetExceeded()
